@@ -422,6 +422,7 @@ func par1Singles() []Mut {
 	for _, n := range []uint64{0, 1, 5, 9, 11, 1000} {
 		ms = append(ms, Mut{"vol.datalen", n})
 	}
+	ms = append(ms, Mut{"novols", 0})
 	return ms
 }
 
@@ -552,7 +553,7 @@ func TestCheck(t *testing.T) {
 	}
 	var structural1 []Mut
 	for _, m := range s1 {
-		if m.Field == "addentries" || m.Field == "vol.datalen" || strings.HasSuffix(m.Field, ".status") {
+		if m.Field == "addentries" || m.Field == "vol.datalen" || strings.HasSuffix(m.Field, ".status") || m.Field == "novols" {
 			structural1 = append(structural1, m)
 		}
 	}
